@@ -557,4 +557,427 @@ def text : String := "(1 -1/2 #\\a (x . y) #(#t ()))"
 
 end Samples
 
+/-! ## the data of values carry no locations -/
+
+theorem stripList_map (g : Value → Datum) (items : List Value)
+    (h : ∀ x ∈ items, (g x).strip = g x) : Datum.stripList (items.map g) = items.map g := by
+  induction items with
+  | nil => rfl
+  | cons x xs ih =>
+    simp only [List.map_cons, Datum.stripList, h x (by simp),
+      ih (fun y hy => h y (by simp [hy]))]
+
+theorem strip_step (σ : Store) (recD : Value → Datum) (H : ∀ x, (recD x).strip = recD x) :
+    ∀ v, (datumStep σ recD v).strip = datumStep σ recD v := by
+  intro v
+  induction v with
+  | num x => cases x <;> rfl
+  | pair a d iha ihd => simp only [datumStep, Datum.strip, iha, ihd]
+  | vec id =>
+    simp only [datumStep]
+    split
+    · simp only [Datum.strip, stripList_map _ _ (fun x _ => H x)]
+    · rfl
+  | _ => rfl
+
+theorem strip_datumN (σ : Store) (n : Nat) : ∀ v, (datumN σ n v).strip = datumN σ n v := by
+  induction n with
+  | zero => exact strip_step σ _ (fun _ => rfl)
+  | succ n ih => exact strip_step σ _ ih
+
+/-! ## `readLiteral` ignores locations and only ever adds cells -/
+
+mutual
+theorem readLiteral_strip : (d : Datum) → (τ : Store) →
+    Eval.readLiteral τ d.strip = Eval.readLiteral τ d
+  | .prim p _, τ => rfl
+  | .sym s _, τ => rfl
+  | .nil _, τ => rfl
+  | .pair a d _, τ => by
+    simp only [Datum.strip, Eval.readLiteral, readLiteral_strip a τ]
+    rcases Eval.readLiteral τ a with ⟨r | va, τ1⟩
+    · rfl
+    · simp only [readLiteral_strip d τ1]
+  | .vec xs _, τ => by
+    simp only [Datum.strip, Eval.readLiteral, readLiterals_strip xs τ]
+theorem readLiterals_strip : (xs : List Datum) → (τ : Store) →
+    Eval.readLiterals τ (Datum.stripList xs) = Eval.readLiterals τ xs
+  | [], τ => rfl
+  | x :: xs, τ => by
+    simp only [Datum.stripList, Eval.readLiterals, readLiteral_strip x τ]
+    rcases Eval.readLiteral τ x with ⟨r | v, τ1⟩
+    · rfl
+    · simp only [readLiterals_strip xs τ1]
+end
+
+theorem Extends.refl (σ : Store) : Extends σ σ := fun _ _ h => h
+
+theorem Extends.trans {a b c : Store} (h1 : Extends a b) (h2 : Extends b c) : Extends a c :=
+  fun i x h => h2 i x (h1 i x h)
+
+theorem extends_allocVec (τ : Store) (m : Bool) (items : List Value) :
+    Extends τ (τ.allocVec m items).2 := by
+  intro i c h
+  have hi : i < τ.vecs.size := by
+    rcases Nat.lt_or_ge i τ.vecs.size with h' | h'
+    · exact h'
+    · rw [Array.getElem?_eq_none h'] at h; cases h
+  simp only [Store.allocVec]
+  rw [Array.getElem?_push_lt hi]
+  rw [Array.getElem?_eq_getElem hi] at h
+  exact h
+
+theorem allocVec_get (τ : Store) (m : Bool) (items : List Value) :
+    (τ.allocVec m items).1 = .vec τ.vecs.size ∧
+      (τ.allocVec m items).2.vecs[τ.vecs.size]? = some { mutable := m, items := items } := by
+  simp [Store.allocVec]
+
+/-! ## structural equality is stable under store extension -/
+
+mutual
+theorem EqualV.mono_right {σ₁ σ₂ σ₂' : Store} (h : Extends σ₂ σ₂') :
+    ∀ {v w : Value}, EqualV σ₁ σ₂ v w → EqualV σ₁ σ₂' v w
+  | _, _, .num x => .num x
+  | _, _, .bool b => .bool b
+  | _, _, .char c => .char c
+  | _, _, .str s => .str s
+  | _, _, .sym s => .sym s
+  | _, _, .nil => .nil
+  | _, _, .pair ha hd => .pair (EqualV.mono_right h ha) (EqualV.mono_right h hd)
+  | _, _, .vec h1 h2 hs => .vec h1 (h _ _ h2) (EqualVs.mono_right h hs)
+theorem EqualVs.mono_right {σ₁ σ₂ σ₂' : Store} (h : Extends σ₂ σ₂') :
+    ∀ {vs ws : List Value}, EqualVs σ₁ σ₂ vs ws → EqualVs σ₁ σ₂' vs ws
+  | _, _, .nil => .nil
+  | _, _, .cons hx hxs => .cons (EqualV.mono_right h hx) (EqualVs.mono_right h hxs)
+end
+
+mutual
+theorem EqualV.mono_left {σ₁ σ₁' σ₂ : Store} (h : Extends σ₁ σ₁') :
+    ∀ {v w : Value}, EqualV σ₁ σ₂ v w → EqualV σ₁' σ₂ v w
+  | _, _, .num x => .num x
+  | _, _, .bool b => .bool b
+  | _, _, .char c => .char c
+  | _, _, .str s => .str s
+  | _, _, .sym s => .sym s
+  | _, _, .nil => .nil
+  | _, _, .pair ha hd => .pair (EqualV.mono_left h ha) (EqualV.mono_left h hd)
+  | _, _, .vec h1 h2 hs => .vec (h _ _ h1) h2 (EqualVs.mono_left h hs)
+theorem EqualVs.mono_left {σ₁ σ₁' σ₂ : Store} (h : Extends σ₁ σ₁') :
+    ∀ {vs ws : List Value}, EqualVs σ₁ σ₂ vs ws → EqualVs σ₁' σ₂ vs ws
+  | _, _, .nil => .nil
+  | _, _, .cons hx hxs => .cons (EqualV.mono_left h hx) (EqualVs.mono_left h hxs)
+end
+
+/-! ## reading the datum of a readable value back -/
+
+theorem exactRatio_wf (n d : Int) (h : Num.WF (.rat n d)) :
+    Num.exactRatio n d = .ok (.rat n d) := by
+  obtain ⟨h1, h2, h3, h4, h5⟩ := h
+  have hs : d.sign = 1 := Int.sign_eq_one_of_pos h3
+  simp [Num.exactRatio, h5, hs, h1, h2, h4]
+
+/-- what reading a datum back must deliver: an equal value in a store that has only grown -/
+def ReadsBack (σ : Store) (v : Value) (d : Datum) : Prop :=
+  ∀ τ : Store, ∃ w τ', Eval.readLiteral τ d = (.ok w, τ') ∧ Extends τ τ' ∧ EqualV σ τ' v w
+
+theorem readLiterals_map (σ : Store) (recD : Value → Datum) (items : List Value)
+    (h : ∀ x ∈ items, ReadsBack σ x (recD x)) (τ : Store) :
+    ∃ ws τ', Eval.readLiterals τ (items.map recD) = (.ok ws, τ') ∧ Extends τ τ' ∧
+      EqualVs σ τ' items ws := by
+  induction items generalizing τ with
+  | nil => exact ⟨[], τ, rfl, Extends.refl τ, .nil⟩
+  | cons x xs ih =>
+    obtain ⟨w, τ1, e1, x1, q1⟩ := h x (by simp) τ
+    obtain ⟨ws, τ2, e2, x2, q2⟩ := ih (fun y hy => h y (by simp [hy])) τ1
+    refine ⟨w :: ws, τ2, ?_, x1.trans x2, .cons (q1.mono_right x2) q2⟩
+    simp only [List.map_cons, Eval.readLiterals, e1, e2]
+
+theorem readsBack_step (σ : Store) (recR : Value → Bool) (recD : Value → Datum)
+    (H : ∀ x, recR x = true → ReadsBack σ x (recD x)) :
+    ∀ v, readableStep σ recR v = true → ReadsBack σ v (datumStep σ recD v) := by
+  intro v
+  induction v with
+  | num x =>
+    intro hr τ
+    cases x with
+    | int i => exact ⟨_, τ, rfl, Extends.refl τ, .num _⟩
+    | rat n d =>
+      have hw : Num.WF (.rat n d) := of_decide_eq_true hr
+      have hd : ((d.toNat : Nat) : Int) = d := Int.toNat_of_nonneg (by have := hw.2.2.1; omega)
+      refine ⟨.num (.rat n d), τ, ?_, Extends.refl τ, .num _⟩
+      simp only [datumStep, Eval.readLiteral, Eval.evalPrim, hd, exactRatio_wf n d hw]
+      rfl
+    | real r => simp [readableStep] at hr
+  | bool b => intro _ τ; exact ⟨_, τ, rfl, Extends.refl τ, .bool b⟩
+  | char c => intro _ τ; exact ⟨_, τ, rfl, Extends.refl τ, .char c⟩
+  | sym s => intro _ τ; exact ⟨_, τ, rfl, Extends.refl τ, .sym s⟩
+  | nil => intro _ τ; exact ⟨_, τ, rfl, Extends.refl τ, .nil⟩
+  | pair a d iha ihd =>
+    intro hr τ
+    simp only [readableStep, Bool.and_eq_true] at hr
+    obtain ⟨wa, τ1, e1, x1, q1⟩ := iha hr.1 τ
+    obtain ⟨wd, τ2, e2, x2, q2⟩ := ihd hr.2 τ1
+    refine ⟨.pair wa wd, τ2, ?_, x1.trans x2, .pair (q1.mono_right x2) q2⟩
+    simp only [datumStep, Eval.readLiteral, e1, e2]
+  | vec id =>
+    intro hr τ
+    simp only [readableStep] at hr
+    split at hr
+    next cell hc =>
+      obtain ⟨ws, τ1, e1, x1, q1⟩ := readLiterals_map σ recD cell.items
+        (fun x hx => H x (List.all_eq_true.1 hr x hx)) τ
+      have ha := allocVec_get τ1 false ws
+      have hx := extends_allocVec τ1 false ws
+      refine ⟨(τ1.allocVec false ws).1, (τ1.allocVec false ws).2, ?_, x1.trans hx, ?_⟩
+      · simp only [datumStep, hc, Eval.readLiteral, e1]
+      · rw [ha.1]
+        exact .vec hc ha.2 (q1.mono_right hx)
+    next => simp at hr
+  | str s => intro hr; simp [readableStep] at hr
+  | closure l e => intro hr; simp [readableStep] at hr
+  | builtin b => intro hr; simp [readableStep] at hr
+  | transformer r => intro hr; simp [readableStep] at hr
+  | void => intro hr; simp [readableStep] at hr
+
+theorem readsBack_datumN (σ : Store) (n : Nat) :
+    ∀ v, readableN σ n v = true → ReadsBack σ v (datumN σ n v) := by
+  induction n with
+  | zero => exact readsBack_step σ _ _ (fun x h => by simp at h)
+  | succ n ih => exact readsBack_step σ _ _ ih
+
+/-! ## values with the same datum are structurally equal -/
+
+theorem equalVs_of_map (σ₁ σ₂ : Store) (R₁ R₂ : Value → Bool) (D₁ D₂ : Value → Datum)
+    (H : ∀ x y, R₁ x = true → R₂ y = true → D₁ x = D₂ y → EqualV σ₁ σ₂ x y) :
+    ∀ xs ys : List Value, xs.all R₁ = true → ys.all R₂ = true → xs.map D₁ = ys.map D₂ →
+      EqualVs σ₁ σ₂ xs ys := by
+  intro xs
+  induction xs with
+  | nil =>
+    intro ys _ _ he
+    cases ys with
+    | nil => exact .nil
+    | cons y ys => simp at he
+  | cons x xs ih =>
+    intro ys h1 h2 he
+    cases ys with
+    | nil => simp at he
+    | cons y ys =>
+      simp only [List.all_cons, Bool.and_eq_true] at h1 h2
+      simp only [List.map_cons, List.cons.injEq] at he
+      exact .cons (H x y h1.1 h2.1 he.1) (ih ys h1.2 h2.2 he.2)
+
+theorem datumStep_vec_shape (σ : Store) (D : Value → Datum) (id : Nat) :
+    ∃ xs, datumStep σ D (.vec id) = .vec xs none := by
+  simp only [datumStep]; split <;> exact ⟨_, rfl⟩
+
+theorem equalV_step (σ₁ σ₂ : Store) (R₁ R₂ : Value → Bool) (D₁ D₂ : Value → Datum)
+    (H : ∀ x y, R₁ x = true → R₂ y = true → D₁ x = D₂ y → EqualV σ₁ σ₂ x y) :
+    ∀ v w, readableStep σ₁ R₁ v = true → readableStep σ₂ R₂ w = true →
+      datumStep σ₁ D₁ v = datumStep σ₂ D₂ w → EqualV σ₁ σ₂ v w := by
+  intro v
+  induction v with
+  | num x =>
+    intro w hv hw he
+    cases x with
+    | int i =>
+      cases w with
+      | num y =>
+        cases y with
+        | int j => simp only [datumStep, Datum.prim.injEq, Prim.int.injEq, and_true] at he; subst he; exact .num _
+        | rat n d => simp [datumStep] at he
+        | real r => simp [readableStep] at hw
+      | vec id => obtain ⟨xs, h⟩ := datumStep_vec_shape σ₂ D₂ id; rw [h] at he; simp [datumStep] at he
+      | _ => first | (simp [datumStep] at he; done) | (simp [readableStep] at hw; done)
+    | rat n d =>
+      have hw1 : Num.WF (.rat n d) := of_decide_eq_true hv
+      cases w with
+      | num y =>
+        cases y with
+        | int j => simp [datumStep] at he
+        | rat n' d' =>
+          have hw2 : Num.WF (.rat n' d') := of_decide_eq_true hw
+          simp only [datumStep, Datum.prim.injEq, Prim.rat.injEq, and_true] at he
+          have h1 := hw1.2.2.1; have h2 := hw2.2.2.1
+          obtain ⟨rfl, h3⟩ := he
+          have : d = d' := by omega
+          subst this; exact .num _
+        | real r => simp [readableStep] at hw
+      | vec id => obtain ⟨xs, h⟩ := datumStep_vec_shape σ₂ D₂ id; rw [h] at he; simp [datumStep] at he
+      | _ => first | (simp [datumStep] at he; done) | (simp [readableStep] at hw; done)
+    | real r => simp [readableStep] at hv
+  | bool b =>
+    intro w hv hw he
+    cases w with
+    | num y => cases y <;> first | (simp [datumStep] at he; done) | (simp [readableStep] at hw; done)
+    | bool c => simp only [datumStep, Datum.prim.injEq, Prim.bool.injEq, and_true] at he; subst he; exact .bool _
+    | vec id => obtain ⟨xs, h⟩ := datumStep_vec_shape σ₂ D₂ id; rw [h] at he; simp [datumStep] at he
+    | _ => first | (simp [datumStep] at he; done) | (simp [readableStep] at hw; done)
+  | char b =>
+    intro w hv hw he
+    cases w with
+    | num y => cases y <;> first | (simp [datumStep] at he; done) | (simp [readableStep] at hw; done)
+    | char c => simp only [datumStep, Datum.prim.injEq, Prim.chr.injEq, and_true] at he; subst he; exact .char _
+    | vec id => obtain ⟨xs, h⟩ := datumStep_vec_shape σ₂ D₂ id; rw [h] at he; simp [datumStep] at he
+    | _ => first | (simp [datumStep] at he; done) | (simp [readableStep] at hw; done)
+  | sym s =>
+    intro w hv hw he
+    cases w with
+    | num y => cases y <;> first | (simp [datumStep] at he; done) | (simp [readableStep] at hw; done)
+    | sym c => simp only [datumStep, Datum.sym.injEq, and_true] at he; subst he; exact .sym _
+    | vec id => obtain ⟨xs, h⟩ := datumStep_vec_shape σ₂ D₂ id; rw [h] at he; simp [datumStep] at he
+    | _ => first | (simp [datumStep] at he; done) | (simp [readableStep] at hw; done)
+  | nil =>
+    intro w hv hw he
+    cases w with
+    | num y => cases y <;> first | (simp [datumStep] at he; done) | (simp [readableStep] at hw; done)
+    | nil => exact .nil
+    | vec id => obtain ⟨xs, h⟩ := datumStep_vec_shape σ₂ D₂ id; rw [h] at he; simp [datumStep] at he
+    | _ => first | (simp [datumStep] at he; done) | (simp [readableStep] at hw; done)
+  | pair a d iha ihd =>
+    intro w hv hw he
+    cases w with
+    | num y => cases y <;> first | (simp [datumStep] at he; done) | (simp [readableStep] at hw; done)
+    | pair a' d' =>
+      simp only [readableStep, Bool.and_eq_true] at hv hw
+      simp only [datumStep, Datum.pair.injEq, and_true] at he
+      exact .pair (iha a' hv.1 hw.1 he.1) (ihd d' hv.2 hw.2 he.2)
+    | vec id => obtain ⟨xs, h⟩ := datumStep_vec_shape σ₂ D₂ id; rw [h] at he; simp [datumStep] at he
+    | _ => first | (simp [datumStep] at he; done) | (simp [readableStep] at hw; done)
+  | vec id =>
+    intro w hv hw he
+    simp only [readableStep] at hv
+    split at hv
+    next c₁ hc₁ =>
+      cases w with
+      | num y => cases y <;> first | (simp [datumStep, hc₁] at he; done) | (simp [readableStep] at hw; done)
+      | vec j =>
+        simp only [readableStep] at hw
+        split at hw
+        next c₂ hc₂ =>
+          simp only [datumStep, hc₁, hc₂, Datum.vec.injEq, and_true] at he
+          exact .vec hc₁ hc₂ (equalVs_of_map σ₁ σ₂ R₁ R₂ D₁ D₂ H _ _ hv hw he)
+        next => simp at hw
+      | _ => first | (simp [datumStep, hc₁] at he; done) | (simp [readableStep] at hw; done)
+    next => simp at hv
+  | str s => intro w hv; simp [readableStep] at hv
+  | closure l e => intro w hv; simp [readableStep] at hv
+  | builtin b => intro w hv; simp [readableStep] at hv
+  | transformer r => intro w hv; simp [readableStep] at hv
+  | void => intro w hv; simp [readableStep] at hv
+
+theorem equalV_of_datumN (σ₁ σ₂ : Store) : ∀ (n m : Nat) (v w : Value),
+    readableN σ₁ n v = true → readableN σ₂ m w = true → datumN σ₁ n v = datumN σ₂ m w →
+    EqualV σ₁ σ₂ v w := by
+  intro n
+  induction n with
+  | zero =>
+    intro m
+    cases m with
+    | zero => exact equalV_step σ₁ σ₂ _ _ _ _ (fun x y h => by simp at h)
+    | succ m => exact equalV_step σ₁ σ₂ _ _ _ _ (fun x y h => by simp at h)
+  | succ n ih =>
+    intro m
+    cases m with
+    | zero => exact equalV_step σ₁ σ₂ _ _ _ _ (fun x y _ h => by simp at h)
+    | succ m => exact equalV_step σ₁ σ₂ _ _ _ _ (ih m)
+
+/-! ## more vector levels change nothing -/
+
+theorem readableStep_mono (σ : Store) (R R' : Value → Bool) (H : ∀ x, R x = true → R' x = true) :
+    ∀ v, readableStep σ R v = true → readableStep σ R' v = true := by
+  intro v
+  induction v with
+  | pair a d iha ihd =>
+    intro h
+    simp only [readableStep, Bool.and_eq_true] at h ⊢
+    exact ⟨iha h.1, ihd h.2⟩
+  | vec id =>
+    intro h
+    simp only [readableStep] at h ⊢
+    split at h
+    next cell hc =>
+      exact List.all_eq_true.2 (fun x hx => H x (List.all_eq_true.1 h x hx))
+    next => simp at h
+  | num x => cases x <;> exact id
+  | _ => exact id
+
+theorem datumStep_congr (σ : Store) (R : Value → Bool) (D D' : Value → Datum)
+    (H : ∀ x, R x = true → D x = D' x) :
+    ∀ v, readableStep σ R v = true → datumStep σ D v = datumStep σ D' v := by
+  intro v
+  induction v with
+  | pair a d iha ihd =>
+    intro h
+    simp only [readableStep, Bool.and_eq_true] at h
+    simp only [datumStep, iha h.1, ihd h.2]
+  | vec id =>
+    intro h
+    simp only [readableStep] at h
+    split at h
+    next cell hc =>
+      simp only [datumStep, hc, Datum.vec.injEq, and_true]
+      exact List.map_congr_left (fun x hx => H x (List.all_eq_true.1 h x hx))
+    next => simp at h
+  | num x => intro _; cases x <;> rfl
+  | _ => intro _; rfl
+
+theorem readableN_succ (σ : Store) (n : Nat) :
+    ∀ v, readableN σ n v = true → readableN σ (n + 1) v = true := by
+  induction n with
+  | zero => exact readableStep_mono σ _ _ (fun x h => by simp at h)
+  | succ n ih => exact readableStep_mono σ _ _ ih
+
+theorem datumN_succ (σ : Store) (n : Nat) :
+    ∀ v, readableN σ n v = true → datumN σ (n + 1) v = datumN σ n v := by
+  induction n with
+  | zero => exact fun v h => (datumStep_congr σ _ _ _ (fun x h => by simp at h) v h).symm
+  | succ n ih =>
+    exact fun v h => (datumStep_congr σ _ _ _ (fun x hx => (ih x hx).symm) v h).symm
+
+theorem readableN_le (σ : Store) {n m : Nat} (h : n ≤ m) (v : Value)
+    (hv : readableN σ n v = true) : readableN σ m v = true := by
+  induction h with
+  | refl => exact hv
+  | step _ ih => exact readableN_succ σ _ v ih
+
+theorem datumN_le (σ : Store) {n m : Nat} (h : n ≤ m) (v : Value)
+    (hv : readableN σ n v = true) : datumN σ m v = datumN σ n v := by
+  induction h with
+  | refl => rfl
+  | step hm ih => rw [datumN_succ σ _ v (readableN_le σ hm v hv), ih]
+
+theorem datumN_pair (σ : Store) (n : Nat) (a d : Value) :
+    datumN σ n (.pair a d) = .pair (datumN σ n a) (datumN σ n d) none := by
+  cases n <;> rfl
+
+theorem readableN_pair (σ : Store) (n : Nat) (a d : Value) :
+    readableN σ n (.pair a d) = (readableN σ n a && readableN σ n d) := by
+  cases n <;> rfl
+
+/-- a readable vector: its cell exists, its items are readable one level below -/
+theorem readableN_vec (σ : Store) (n : Nat) (id : Nat) (h : readableN σ n (.vec id) = true) :
+    ∃ cell, σ.vecs[id]? = some cell ∧ (∀ x ∈ cell.items, readableN σ n x = true) ∧
+      datumN σ n (.vec id) = .vec (cell.items.map (datumN σ n)) none := by
+  cases n with
+  | zero =>
+    simp only [readableN, readableStep] at h
+    split at h
+    next cell hc =>
+      have : cell.items = [] := by
+        cases hi : cell.items with
+        | nil => rfl
+        | cons x xs => rw [hi] at h; simp at h
+      exact ⟨cell, hc, by simp [this], by simp [datumN, datumStep, hc, this]⟩
+    next => simp at h
+  | succ n =>
+    simp only [readableN, readableStep] at h
+    split at h
+    next cell hc =>
+      have hx := List.all_eq_true.1 h
+      refine ⟨cell, hc, fun x hx' => readableN_succ σ n x (hx x hx'), ?_⟩
+      simp only [datumN, datumStep, hc, Datum.vec.injEq, and_true]
+      exact List.map_congr_left (fun x hx' => (datumN_succ σ n x (hx x hx')).symm)
+    next => simp at h
+
 end Ruschm.Print
